@@ -1,7 +1,7 @@
 """C06 - self-describing data files and recoverable channel properties (DrfChannelTrace: FileClauses, RegenProps)."""
 from . import chan_common as cc
 
-PREFIXES = ("C06-", "C11-valid-session-refused")
+PREFIXES = ("C06-", "C11-valid-session-refused", "C11-mismatched-session-accepted")
 
 
 def run(ctx):
